@@ -460,6 +460,13 @@ def flip : Op K D → Nat → Op K D
       | false => mkChainU S FUEL (ops.map (flip · t))
   | o, t => if t == 0 then o else .adapter o t
 
+/-- `_flip_modes(trafo)` raises ZeroDivisionError: a ScalingOperator with factor 0 is asked for `1.0 / fct`
+    (directly or as a member of a chain, whose members are flipped before `make`) -/
+def flipRaises : Op K D → Nat → Bool
+  | .scaling _ c _, t => scalingFlipInv t && S.keq c S.kzero
+  | .chain ops, t => t != 0 && (ops.map (flipRaises · t)).any id
+  | _, _ => false
+
 /-- the `.adjoint` property (SumOperator overrides it, everything else is `_flip_modes(ADJOINT_BIT)`) -/
 def adjointOf : Op K D → Op K D
   | .sum ops neg => mkSumU S FUEL (ops.map adjointOf) neg
